@@ -138,8 +138,8 @@ func genWirePlan(t *rapid.T) *wplan {
 		alive bool
 	}
 	var clients []simClient // creation order = index the run uses
-	live := []int{0}         // live stream generations, oldest first
-	cur, nextGen := 0, 1     // the registered generation (-1: the path is free)
+	live := []int{0}        // live stream generations, oldest first
+	cur, nextGen := 0, 1    // the registered generation (-1: the path is free)
 	on := func(g int) (idx []int) {
 		for i, c := range clients {
 			if c.alive && c.gen == g {
@@ -328,7 +328,9 @@ type wclient struct {
 	framing  string // malformed server output met by the strict reader
 }
 
-func (c *wclient) String() string { return fmt.Sprintf("client %d (%s, stream #%d)", c.id, c.kind, c.gen) }
+func (c *wclient) String() string {
+	return fmt.Sprintf("client %d (%s, stream #%d)", c.id, c.kind, c.gen)
+}
 
 func (c *wclient) tracks() int {
 	if c.audio {
@@ -795,7 +797,7 @@ func (w *wworld) detail(extra map[string]any) map[string]any {
 	streams, consumers := srv.Streams()
 	g, sample := wireGoroutines()
 	m := map[string]any{"plan": w.pl, "path": w.path, "history": w.log,
-		"counters": map[string]any{"rtsp_conns": srv.RtspConns(), "flv_conns": srv.FlvConns(), "wsp_conns": srv.WspConns(), "streams": streams, "consumers": consumers},
+		"counters":   map[string]any{"rtsp_conns": srv.RtspConns(), "flv_conns": srv.FlvConns(), "wsp_conns": srv.WspConns(), "streams": streams, "consumers": consumers},
 		"goroutines": g, "goroutine_sample": sample}
 	for k, v := range extra {
 		m[k] = v
